@@ -13,10 +13,14 @@ open Mkdb.Generated
 /-- **C13.all_bracketed**: according to the facts extracted from the current source, every
 statement evaluator takes the shared lock first and releases it last, the log append happens
 inside that bracket, CREATE TABLE changes pages under the shared lock, `flushPages` holds the
-exclusive lock for its whole body, and the data file is written nowhere else. -/
+exclusive lock for its whole body, and the data file is written nowhere else; at start-up the
+header is read under the exclusive lock (the flusher of an opened store is already running), and no
+store other than the one `OpenRelation` returns is created with a flusher (`CreateDB` changes pages
+under no lock and flushes explicitly). -/
 theorem C13_all_bracketed :
     (∀ p ∈ lockBrackets, p.2 = true) ∧ lockCreateTableLocked = true ∧ lockFlushExclusive = true ∧
-    lockTxnIsSharedLock = true ∧ lockPageWritesOnlyInFlush = true ∧ lockLogAppendInsideBracket = true := by
+    lockTxnIsSharedLock = true ∧ lockPageWritesOnlyInFlush = true ∧ lockLogAppendInsideBracket = true ∧
+    lockOpenExclusive = true ∧ lockFlusherOnlyAfterOpen = true := by
   decide
 
 /-- **C13.exclusion**: in every state reachable under every schedule of bracketed statements and
